@@ -422,13 +422,27 @@ func (env *specEnv) resolveModifies(mk string) (ts []modTarget, ok bool) {
 		}
 		return ts, true
 	}
+	if strings.HasPrefix(mk, "allcontents(") && strings.HasSuffix(mk, ")") {
+		// every backing array of the element type of a slice-typed expression (coarse)
+		inner := strings.TrimSuffix(strings.TrimPrefix(mk, "allcontents("), ")")
+		if e, err := ParseSpec(inner); err == nil {
+			if v, err := env.anyExpr(e, nil); err == nil && v.typ != nil {
+				if sl, ok := v.typ.Underlying().(*types.Slice); ok {
+					return []modTarget{{u.keyM(sl.Elem()), ""}}, true
+				}
+			}
+		}
+		return nil, false
+	}
 	if strings.HasPrefix(mk, "contents(") && strings.HasSuffix(mk, ")") {
 		// the element store of a slice-typed expression (any backing array of that element type)
 		inner := strings.TrimSuffix(strings.TrimPrefix(mk, "contents("), ")")
 		if e, err := ParseSpec(inner); err == nil {
 			if v, err := env.anyExpr(e, nil); err == nil && v.typ != nil {
 				if sl, ok := v.typ.Underlying().(*types.Slice); ok {
-					return []modTarget{{u.keyM(sl.Elem()), ""}}, true
+					// the backing array the slice has now (a re-allocated one is a fresh object: contracts
+					// naming contents(...) are treated as allocating)
+					return []modTarget{{u.keyM(sl.Elem()), "(s_ref " + v.t + ")"}}, true
 				}
 			}
 		}
@@ -873,12 +887,49 @@ func (fr *frame) contractCallSigNames(v ssa.Value, ct *Contract, sig *types.Sign
 			fr.havocKey(mk, env)
 		}
 	}
+	// the callee may allocate: the allocation counter moves forward (as in contractCall)
+	allocPre := fr.st.get(u, u.regKey(allocKey, "Int"))
+	allocates := ct.Allocates
+	for _, en := range ct.Ensures {
+		if strings.Contains(en.Src, "fresh(") {
+			allocates = true
+		}
+	}
+	if allocates && ct.HasMod {
+		u.nfresh++
+		ws := fr.st.ws
+		prevSt := fr.st
+		fr.st = &state{over: map[string]string{}, base: &allocProv{tag: fr.tag(fmt.Sprintf("ac%d", u.nfresh)), prev: prevSt, allocPre: allocPre, cache: map[string]string{}}, ws: ws, u: u}
+	}
+	if ct.HasMod {
+		allocPost := u.declConst(fr.tag("alloc_after"), "Int")
+		u.assert("(>= " + allocPost + " " + allocPre + ")")
+		fr.st.set(allocKey, allocPost)
+	}
+	for _, wi := range ct.WritesArg {
+		if wi < len(args) {
+			fr.havocThroughArg(args[wi], ct.Key)
+		}
+	}
 	var rs []Val
 	res := sig.Results()
 	for i := 0; i < res.Len(); i++ {
 		rs = append(rs, fr.freshOfType("r", res.At(i).Type()))
 	}
-	post := &specEnv{u: u, st: fr.st, old: pre, vars: env.vars, pkgPath: ct.PkgPath, results: rs, resultSig: sig}
+	post := &specEnv{u: u, st: fr.st, old: pre, vars: env.vars, pkgPath: ct.PkgPath, results: rs, resultSig: sig, freshBase: allocPre}
+	if len(ct.GhostMaps) > 0 {
+		post.ghost = map[string]string{}
+		for _, g := range ct.GhostMaps {
+			sym := u.fresh("ghost_" + g)
+			u.emit("(declare-fun %s (%s) %s)", sym, u.mode.idxSort(), u.mode.idxSort())
+			post.ghost[g] = sym
+			u.ghostSyms = append(u.ghostSyms, sym)
+			if u.ghostBlock == nil {
+				u.ghostBlock = map[string]*ssa.BasicBlock{}
+			}
+			u.ghostBlock[sym] = fr.blk
+		}
+	}
 	for k, en := range ct.Ensures {
 		if observerRe.MatchString(en.Src) {
 			continue // an assertion about the callee's own calls: not visible to callers
